@@ -3,17 +3,26 @@
 \* C18 (RDF/XML): the emitted document must parse, and its parse must be ISOMORPHIC (brute force over blank-node
 \* bijections, Iso.tla) to the input restricted to what the format can express: every quad present exactly once with the
 \* same IRIs, lexical forms, datatypes, language tags and graph names, blank nodes renamed consistently.
-EXTENDS Iso, Json, IOUtils
+EXTENDS Iso, Json, IOUtils, SequencesExt
 Rec == ndJsonDeserialize(IOEnv.TRACE)
 VARIABLE l
 SetOfSeq(s) == {s[i] : i \in 1..Len(s)}
 \* ---- what each format can express ----
 JsonLdExpressible(q) == q[1].k \in {"iri", "bnode"} /\ q[2].k = "iri" /\ q[3].k \in {"iri", "bnode", "lit"} /\ q[4].k \in {"dg", "iri", "bnode"}
 \* XML NCName (ASCII letters, digits, '-', '.', '_' and everything >= 0xC0 as name characters; must not start with digit, '-', '.')
-NameStart(c) == (c >= 65 /\ c <= 90) \/ (c >= 97 /\ c <= 122) \/ c = 95 \/ c >= 192
-NameChar(c) == NameStart(c) \/ (c >= 48 /\ c <= 57) \/ c = 45 \/ c = 46 \/ c = 183
-HasNcNameSuffix(v) == \E i \in 1..Len(v) : NameStart(v[i]) /\ \A j \in i..Len(v) : NameChar(v[j])
-XmlExpressible(q) == q[1].k \in {"iri", "bnode"} /\ q[2].k = "iri" /\ HasNcNameSuffix(q[2].v) /\ q[3].k \in {"iri", "bnode", "lit"} /\ q[4].k = "dg"
+\* XML 1.0 (5th ed.) productions [4] NameStartChar, [4a] NameChar (without ':': Namespaces in XML, NCName)
+NameStart(c) == \/ (c >= 65 /\ c <= 90) \/ c = 95 \/ (c >= 97 /\ c <= 122) \/ (c >= 192 /\ c <= 214) \/ (c >= 216 /\ c <= 246) \/ (c >= 248 /\ c <= 767)
+                \/ (c >= 880 /\ c <= 893) \/ (c >= 895 /\ c <= 8191) \/ c \in {8204, 8205} \/ (c >= 8304 /\ c <= 8591) \/ (c >= 11264 /\ c <= 12271)
+                \/ (c >= 12289 /\ c <= 55295) \/ (c >= 63744 /\ c <= 64975) \/ (c >= 65008 /\ c <= 65533) \/ (c >= 65536 /\ c <= 983039)
+NameChar(c) == NameStart(c) \/ c \in {45, 46, 183, 8255, 8256} \/ (c >= 48 /\ c <= 57) \/ (c >= 768 /\ c <= 879)
+IsNcName(v) == Len(v) > 0 /\ NameStart(v[1]) /\ \A i \in 2..Len(v) : NameChar(v[i])
+IsQName(v) == IsNcName(v) \/ \E i \in 2..(Len(v) - 1) : v[i] = 58 /\ IsNcName(SubSeq(v, 1, i - 1)) /\ IsNcName(SubSeq(v, i + 1, Len(v)))
+HasNcNameSuffix(v) == \E i \in 2..Len(v) : IsNcName(SubSeq(v, i, Len(v)))
+RdfNsCp == <<104, 116, 116, 112, 58, 47, 47, 119, 119, 119, 46, 119, 51, 46, 111, 114, 103, 47, 49, 57, 57, 57, 47, 48, 50, 47, 50, 50, 45, 114, 100, 102, 45, 115, 121, 110, 116, 97, 120, 45, 110, 115, 35>>
+\* RDF/XML syntax 5.1: names that can not be property elements (coreSyntaxTerms, rdf:Description, oldTerms), and rdf:li which is read as rdf:_n
+ReservedLocal == {<<82, 68, 70>>, <<73, 68>>, <<97, 98, 111, 117, 116>>, <<112, 97, 114, 115, 101, 84, 121, 112, 101>>, <<114, 101, 115, 111, 117, 114, 99, 101>>, <<110, 111, 100, 101, 73, 68>>, <<100, 97, 116, 97, 116, 121, 112, 101>>, <<68, 101, 115, 99, 114, 105, 112, 116, 105, 111, 110>>, <<97, 98, 111, 117, 116, 69, 97, 99, 104>>, <<97, 98, 111, 117, 116, 69, 97, 99, 104, 80, 114, 101, 102, 105, 120>>, <<98, 97, 103, 73, 68>>, <<108, 105>>}
+Reserved(v) == \E r \in ReservedLocal : v = RdfNsCp \o r
+XmlExpressible(q) == q[1].k \in {"iri", "bnode"} /\ q[2].k = "iri" /\ HasNcNameSuffix(q[2].v) /\ ~Reserved(q[2].v) /\ q[3].k \in {"iri", "bnode", "lit"} /\ q[4].k = "dg"
 \* XML 1.0 Char
 XmlChar(c) == c \in {9, 10, 13} \/ (c >= 32 /\ c <= 55295) \/ (c >= 57344 /\ c <= 65533) \/ c >= 65536
 TextLegal(q) == \A j \in 1..3 : q[j].k = "lit" => \A i \in 1..Len(q[j].lex) : XmlChar(q[j].lex[i])
@@ -45,6 +54,18 @@ I18nObj(t) == LET rest == SubSeq(t.dt, Len(I18nNs) + 1, Len(t.dt))
                   u == CHOOSE i \in 1..Len(rest) : rest[i] = 95 /\ \A j \in 1..(i-1) : rest[j] # 95
               IN [v |-> t.lex, lang |-> SubSeq(rest, 1, u - 1), dir |-> SubSeq(rest, u + 1, Len(rest))]
 IsI18nDir(t) == t.k = "lit" /\ StartsWith(t.dt, I18nNs) /\ \E i \in (Len(I18nNs) + 1)..(Len(t.dt) - 1) : t.dt[i] = 95
+\* the document, as tokenised by the harness (names of elements and attributes; raw character data and attribute values)
+Digit(c) == c >= 48 /\ c <= 57
+Hex(c) == Digit(c) \/ (c >= 65 /\ c <= 70) \/ (c >= 97 /\ c <= 102)
+RefBody(b) == \/ b \in {<<97, 109, 112>>, <<108, 116>>, <<103, 116>>, <<113, 117, 111, 116>>, <<97, 112, 111, 115>>}
+              \/ (Len(b) >= 2 /\ b[1] = 35 /\ \A k \in 2..Len(b) : Digit(b[k]))
+              \/ (Len(b) >= 3 /\ b[1] = 35 /\ b[2] = 120 /\ \A k \in 3..Len(b) : Hex(b[k]))
+ChunkLegal(v) == \A i \in 1..Len(v) : /\ XmlChar(v[i]) /\ v[i] # 60
+                                      /\ (v[i] = 38 => \E j \in (i + 2)..Len(v) : v[j] = 59 /\ (\A k \in (i + 1)..(j - 1) : v[k] # 59) /\ RefBody(SubSeq(v, i + 1, j - 1)))
+WellFormedDoc(o) == o.lexok /\ (\A i \in 1..Len(o.names) : IsQName(o.names[i])) /\ (\A i \in 1..Len(o.chunks) : ChunkLegal(o.chunks[i]))
+\* named deviation of the third-party RDF/XML parser (rio_xml 0.8 parser.rs:670): character data made of white space only is dropped
+WsOnly(t) == t.k = "lit" /\ Len(t.lex) > 0 /\ \A i \in 1..Len(t.lex) : t.lex[i] \in {32, 9, 10, 13}
+LibWs(q) == IF WsOnly(q[3]) THEN <<q[1], q[2], [q[3] EXCEPT !.lex = <<>>], q[4]>> ELSE q
 JudgeOut(e, o, D) ==
   IF ~o.ok THEN (IF e.serok THEN "output-does-not-parse" ELSE "serializer-failed")
   ELSE IF Len(o.quads) # Cardinality({NormQ(q) : q \in SetOfSeq(o.quads)}) THEN "statement-written-twice"
@@ -82,10 +103,23 @@ Judge(e) ==
   ELSE \* RDF/XML: Err always allowed unless everything is expressible and XML-legal; result independent of the indentation
        LET D == {q \in SetOfSeq(e["in"]) : XmlExpressible(q)}
            allOk == \A q \in SetOfSeq(e["in"]) : XmlExpressible(q) /\ TextLegal(q)
-           bad == {i \in 1..Len(e.outs) : e.outs[i].serok /\ JudgeOut([serok |-> TRUE], e.outs[i].out, D) # "ok"}
-       IN IF \E i \in 1..Len(e.outs) : ~e.outs[i].serok /\ allOk THEN "serializer-refuses-an-expressible-graph"
-          ELSE IF bad # {} THEN JudgeOut([serok |-> TRUE], e.outs[CHOOSE i \in bad : \A j \in bad : i <= j].out, D)
+           Dlib == {LibWs(q) : q \in D}
+           J(o) == LET v == JudgeOut([serok |-> TRUE], o.out, D)
+                   IN IF ~WellFormedDoc(o) THEN "document-not-well-formed"
+                      ELSE IF v = "ok" THEN v
+                      ELSE IF o.out.ok /\ Dlib # D /\ JudgeOut([serok |-> TRUE], [o.out EXCEPT !.quads = SetToSeq(SetOfSeq(o.out.quads))], Dlib) = "ok"
+                           /\ Len(o.out.quads) = Cardinality(D) THEN "lib-deviation:whitespace-only-literal-read-as-empty"
+                      ELSE v
+           bad == {i \in 1..Len(e.outs) : e.outs[i].serok /\ J(e.outs[i]) # "ok"}
+           worse == {i \in bad : J(e.outs[i]) # "lib-deviation:whitespace-only-literal-read-as-empty"}
+           First(S) == CHOOSE i \in S : \A j \in S : i <= j
+       IN IF \E i \in 1..Len(e.faults) : e.faults[i].panicked THEN "panic-on-failing-sink"
+          ELSE IF \E i \in 1..Len(e.faults) : e.faults[i].ok /\ ~e.faults[i].complete THEN "success-reported-but-sink-holds-a-truncated-document"
+          ELSE IF \E i \in 1..Len(e.faults) : ~e.faults[i].ok /\ e.faults[i].limit >= e.faults[i].len THEN "serializer-fails-on-a-healthy-sink"
+          ELSE IF \E i \in 1..Len(e.outs) : ~e.outs[i].serok /\ allOk THEN "serializer-refuses-an-expressible-graph"
+          ELSE IF worse # {} THEN J(e.outs[First(worse)])
           ELSE IF \E i, j \in 1..Len(e.outs) : e.outs[i].serok # e.outs[j].serok THEN "indentation-changes-the-outcome"
+          ELSE IF bad # {} THEN J(e.outs[First(bad)])
           ELSE "ok"
 Init == l = 1
 Next == /\ l <= Len(Rec) /\ l' = l + 1
